@@ -6,7 +6,8 @@ from props import netprops
 LEVEL = "proof"
 RULE = ("for every modelled entry family: SPEC-generated valid scripts and 5-8 mutations of each biased towards extreme values in length / "
         "count / size / index positions (0xFF, 0xFE, 0x7F, 0x80 bytes and FFFFFFFF / 7FFFFFFF words near the head of each datagram, "
-        "oversized datagrams); a counting global allocator in the harness measures, per query, the peak live bytes and the largest single "
+        "oversized datagrams; Valve: compressed split replies whose tiny bzip2 stream expands to 80 MiB, with true and extreme announced sizes, "
+        "fragments in and out of order); a counting global allocator in the harness measures, per query, the peak live bytes and the largest single "
         "request; the allowance (64 MiB live, 16 MiB in one request) is checked on the measured numbers, a refused allocation (> 1 GiB) or abort "
         "is a violation; the number of requests sent must stay within units x (retries+1) + datagrams received. Non-trivial = a delivery received.")
 ASSUMPTIONS = ["the allocator's own bookkeeping and collection growth policies are measured, not modelled",
@@ -48,6 +49,7 @@ def run(rep, tier, seed, replay=None):
         return
     rnd = random.Random(seed)
     cases, fam_of = list(netprops.corpus("C13")), {}
+    extra_budget = {}
     for fam, d in netprops.FAMILIES.items():
         n = 150 if tier == "quick" else 4000
         for v in netprops.valid_cases(fam, seed + 13, n):
@@ -62,6 +64,16 @@ def run(rep, tier, seed, replay=None):
                 cid = f"{v.id}x{k}"
                 cases.append(c.line(cid))
                 fam_of[cid] = fam
+            fmod = importlib.import_module("props.families." + fam)
+            if hasattr(fmod, "c13_extra") and extra_budget.get(fam, 0) < (3 if tier == "quick" else 40):
+                made = fmod.c13_extra(v, rnd)
+                if made:
+                    extra_budget[fam] = extra_budget.get(fam, 0) + 1
+                for j, (c, what) in enumerate(made):
+                    cid = f"{v.id}e{j}"
+                    cases.append(c.line(cid))
+                    fam_of[cid] = fam
+                    rep.count("mutation:" + what)
             if rnd.random() < 0.2:
                 c = c0.clone()
                 conns = [i for i, x in enumerate(c.script) if x != "X" and x]
